@@ -1,0 +1,90 @@
+//go:build verif
+
+package api
+
+import (
+	"encoding/json"
+	"errors"
+	"net/http"
+	"net/http/httptest"
+	"testing"
+	"time"
+
+	"github.com/gotid/god/api/router"
+	"github.com/gotid/god/internal/verifdrv"
+	"github.com/gotid/god/lib/logx"
+	"github.com/gotid/god/lib/timex"
+)
+
+// {"timeout": Config.Timeout in ms (0: no timeout handler budget), "calls": [[class, status, route], ...]}
+// class 0 WriteHeader(status) | 1 Write without WriteHeader | 2 nothing written | 4 panic(string) | 5 panic(error);
+// routes 0 GET /verif/a/get | 1 POST /verif/a/get | 2 GET /verif/b/get (each bound by the engine with its own
+// default chain, hence its own breaker).
+type verifC01Case struct {
+	Timeout int64     `json:"timeout"`
+	Calls   [][]int64 `json:"calls"`
+}
+
+// TestVerifDriverC01 sends the calls one after the other through the chains engine.bindRoute assembles
+// (newEngine + addRoutes + bindRoutes on a fresh router; frozen clock) and reports per call
+// [status the client got, 1 iff the route's handler was reached].
+func TestVerifDriverC01(t *testing.T) {
+	logx.Disable()
+	verifdrv.Run(t, func(raw json.RawMessage) any {
+		var c verifC01Case
+		if err := json.Unmarshal(raw, &c); err != nil {
+			return map[string]any{"error": err.Error()}
+		}
+		timex.VerifSetNow(time.Hour)
+		defer timex.VerifClockOff()
+		var cur []int64
+		reached := 0
+		h := func(w http.ResponseWriter, r *http.Request) {
+			reached++
+			switch cur[0] {
+			case 0:
+				w.WriteHeader(int(cur[1]))
+			case 1:
+				w.Write([]byte("verif"))
+			case 2:
+			case 4:
+				panic("verif panic")
+			case 5:
+				panic(errors.New("verif panic error"))
+			}
+		}
+		ng := newEngine(Config{Timeout: c.Timeout})
+		ng.addRoutes(featuredRoutes{routes: []Route{
+			{Method: http.MethodGet, Path: "/verif/a/get", Handler: h},
+			{Method: http.MethodPost, Path: "/verif/a/get", Handler: h},
+			{Method: http.MethodGet, Path: "/verif/b/get", Handler: h},
+		}})
+		rt := router.NewRouter()
+		if err := ng.bindRoutes(rt); err != nil {
+			return map[string]any{"error": err.Error()}
+		}
+		rows := make([][]int64, 0, len(c.Calls))
+		for _, call := range c.Calls {
+			cur = call
+			method, path := http.MethodGet, "/verif/a/get"
+			if len(call) > 2 {
+				switch call[2] {
+				case 1:
+					method = http.MethodPost
+				case 2:
+					path = "/verif/b/get"
+				}
+			}
+			rec := httptest.NewRecorder()
+			req := httptest.NewRequest(method, "http://localhost"+path, nil)
+			before := reached
+			escaped, _ := verifdrv.Catch(func() { rt.ServeHTTP(rec, req) })
+			status := int64(rec.Code)
+			if escaped {
+				status = -1
+			}
+			rows = append(rows, []int64{status, int64(reached - before)})
+		}
+		return map[string]any{"rows": rows}
+	})
+}
